@@ -2,6 +2,8 @@ import WM.Lemmas.FaithfulUnion
 import WM.Lemmas.FaithfulAndNot
 import WM.Lemmas.FaithfulInverse
 import WM.Lemmas.FaithfulLeaf
+import WM.Lemmas.FaithfulMulti
+import WM.Lemmas.FaithfulCombo
 /-! Every matcher tree is a faithful cursor: the per-node lemmas assembled along the `Shape`. -/
 namespace WM.Matcher
 
@@ -21,6 +23,8 @@ def WF : (s : Shape) → St s → Prop
   | .filter c, m => WF c m.child ∧ Filter.Passes (den c) m.ids m.exclude m.child
   | .inverse c, m => WF c m.child ∧ Inverse.Stops (den c) m.limit m.missing m.child m.id
   | .const c, m => WF c m.child
+  | .multi c, m => Multi.WF (ops c) (den c) (full c) (WF c) m
+  | .aunion c, m => AUnion.WF (den c) (full c) (WF c) m
 
 theorem tree_faithful : ∀ s : Shape, Faithful (ops s) (den s) (full s) (WF s)
   | .null => null_faithful
@@ -36,5 +40,7 @@ theorem tree_faithful : ∀ s : Shape, Faithful (ops s) (den s) (full s) (WF s)
   | .filter c => Filter.faithful (tree_faithful c)
   | .inverse c => Inverse.faithful (tree_faithful c)
   | .const c => Const.faithful (tree_faithful c)
+  | .multi c => Multi.faithful (tree_faithful c)
+  | .aunion c => AUnion.faithful (tree_faithful c)
 
 end WM.Matcher
